@@ -296,6 +296,15 @@ def gen_pq_cases(tier, rng):
             for h in rng.sample(hs, min(len(hs), 150 if thorough else 60)):
                 cases.append(col_case(fs, 0, 0, modes[mi % 3], rc.ops_text(h), "dict", verify=mi % 2))
                 mi += 1
+    # requests of 2^31 values and more (the repaired code compares in 64 bits; the pinned code cast to int32 first).
+    # REQUIRED BOOLEAN: one byte per slot, the driver hands over untouched zero pages.  The model's caller buffer is an
+    # explicit list, so these cases are judged by the property's oracle only (no model line).
+    fsb = FileSpec(0, [Col("a", "bool", False)], [[rc.make_chunk("bool", [False] * 5, [3, 2])]])
+    cases.append(col_case(fsb, 0, 0, "f", "r6", "ref"))
+    for mode, ops in (("f", "q2147483648,m,h"), ("m", "q4294967296,m,h"), ("b", "r1,q4294967297,m,h"), ("f", "s2147483648,m,h")):
+        c = col_case(fsb, 0, 0, mode, ops, "huge")
+        c.mline = None
+        cases.append(c)
     # multi-column dictionary file through the batch reader
     cols = [Col("k", "i64", False), Col("v", "i32", True), Col("s", "ba", True)]
     nrow = 6
@@ -523,8 +532,9 @@ def model_tie(rep, cases, impl):
     except vlib.BuildError as e:
         rep.tie_broken("model runner does not build: " + str(e)[:600])
         return
-    sel = [c for c in cases if c.fs.known is None]           # witnesses of open findings: the model is the repaired code
-    isel = [i for i, c in enumerate(cases) if c.fs.known is None]
+    # not replayed by the model: witnesses of open findings (the model is the repaired code) and the 2^31-slot requests
+    sel = [c for c in cases if c.fs.known is None and c.mline is not None]
+    isel = [i for i, c in enumerate(cases) if c.fs.known is None and c.mline is not None]
     model, probs = run_sharded(runner, [c.mline for c in sel], timeout=3000)
     for pr in probs:
         rep.tie_broken(f"model runner died (rc={pr[1]}): {pr[2][-300:]}", pr[3])
